@@ -23,6 +23,8 @@ def run(name):
         for p in [pid] + ([alt] if alt else []):
             r = subprocess.run("VERIF_REPO=%s ./check %s --tier quick" % (W, p), shell=True, cwd="/verif", env=env, capture_output=True, text=True)
             res[p] = {0: "MISSED", 1: "CAUGHT", 2: "INCONCLUSIVE"}.get(r.returncode, str(r.returncode))
+            if r.returncode == 1 and ("VIOLATION property=%s " % p) not in r.stdout:
+                res[p] = "DRIVER-ERROR"
         verdict = "CAUGHT" if "CAUGHT" in res.values() else "/".join(res.values())
         return name, verdict, ",".join("%s:%s" % kv for kv in res.items())
     finally:
